@@ -344,7 +344,7 @@ package stream
 //@ ensures.cancel_reopen[C13] !wasopen ==> calls("time.(*Timer).Stop") == ite(old(s.rebalanceTimer) != nil, 1, 0)
 //@ ensures.closed[C13] wasopen ==> !s.open && s.observers == nil && fresh(s.offsets) && fresh(s.dirtyOffsets) && (forall vb uint16 :: !has(s.offsets, vb) && !has(s.dirtyOffsets, vb))
 //@ ensures.bracket[C11] wasopen ==> calls(models.EventHandler.BeforeStreamStop) == 1 && calls(models.EventHandler.AfterStreamStop) == 1 && ts(models.EventHandler.BeforeStreamStop, 0) < ts("stream.(*stream).closeAllStreams", 0) && ts("stream.(*stream).closeAllStreams", 0) < ts(models.EventHandler.AfterStreamStop, 0)
-//@ ensures.switches[C13] wasopen ==> dcalls("wrapper.(*ConcurrentSwissMap).Range") == 2 && isclosure(darg("wrapper.(*ConcurrentSwissMap).Range", 0, f), "stream.(*stream).Close$1") && isclosure(darg("wrapper.(*ConcurrentSwissMap).Range", 1, f), "stream.(*stream).Close$2") && darg("wrapper.(*ConcurrentSwissMap).Range", 0, m) == old(s.observers) && darg("wrapper.(*ConcurrentSwissMap).Range", 1, m) == old(s.observers) && ts("wrapper.(*ConcurrentSwissMap).Range", 0) < ts("stream.(*stream).closeAllStreams", 0) && ts("stream.(*stream).closeAllStreams", 0) < ts("wrapper.(*ConcurrentSwissMap).Range", 1)
+//@ ensures.impl_switches[C13] wasopen ==> dcalls("wrapper.(*ConcurrentSwissMap).Range") == 2 && isclosure(darg("wrapper.(*ConcurrentSwissMap).Range", 0, f), "stream.(*stream).Close$1") && isclosure(darg("wrapper.(*ConcurrentSwissMap).Range", 1, f), "stream.(*stream).Close$2") && darg("wrapper.(*ConcurrentSwissMap).Range", 0, m) == old(s.observers) && darg("wrapper.(*ConcurrentSwissMap).Range", 1, m) == old(s.observers) && ts("wrapper.(*ConcurrentSwissMap).Range", 0) < ts("stream.(*stream).closeAllStreams", 0) && ts("stream.(*stream).closeAllStreams", 0) < ts("wrapper.(*ConcurrentSwissMap).Range", 1)
 //@ ensures.mitigation[C13] wasopen && !s.config.RollbackMitigation.Disabled ==> calls(couchbase.RollbackMitigation.Stop) == 1
 //@ ensures.token[C11,C12] wasopen ==> sends(s.finishStreamWithCloseCh) == ite(s.streamFinishedWithEndEventCh, 0, 1)
 //@ modifies s.closeWithCancel, s.observers, s.offsets, s.dirtyOffsets, s.open, chan(s.finishStreamWithCloseCh), calls(models.EventHandler.BeforeStreamStop), calls(models.EventHandler.AfterStreamStop), calls("stream.(*stream).closeAllStreams"), calls(couchbase.Client.CloseStream), calls("go:stream.(*stream).closeAllStreams$1$1"), calls(couchbase.Observer.Close), calls(couchbase.Observer.CloseEnd), calls(couchbase.RollbackMitigation.Stop), calls(stream.Checkpoint.StopSchedule), calls("time.(*Timer).Stop"), calls("wrapper.(*ConcurrentSwissMap).Range")
